@@ -42,7 +42,8 @@ def gen_stmt(rng: random.Random, depth: int, scope: str) -> Dict[str, Any]:
         return {"k": k, "name": name, "ann": rng.choice(["int", "str", "'int'"]), "value": rng.choice(["1", None]),
                 "doc": rng.random() < 0.3}
     if k == "expr":
-        return {"k": k, "value": rng.choice(["print(1)", "'stray string'", "a_call(b=[x for x in ()])"])}
+        return {"k": k, "value": rng.choice(["print(1)", "'stray string'", "a_call(b=[x for x in ()])", "print(1) if a else None", "lambda x: x",
+                                             "(yield_ for yield_ in ())", "{k: v for k, v in ()}", "a and b or c", "[*a, *b]", "f'{a!r:>{b}}'"])}
     if k in ("if", "ifmain", "try", "with", "for", "while"):
         return {"k": k, "body": gen_body(rng, depth - 1, scope, 2)}
     return {"k": "pass"}
